@@ -100,9 +100,22 @@ def impl():
     global _pool
     os.chdir(scratch())
     if _pool is None:
-        from avocado_i2n.states import pool
+        alt = os.environ.get("I2N_C14_POOL")        # mutation sanity only: a modified copy of pool.py
+        if alt:
+            import importlib.util
+            import avocado_i2n.states   # noqa: the package of the relative imports
+            spec = importlib.util.spec_from_file_location("avocado_i2n.states.pool", alt)
+            pool = importlib.util.module_from_spec(spec)
+            sys.modules["avocado_i2n.states.pool"] = pool
+            spec.loader.exec_module(pool)
+        else:
+            from avocado_i2n.states import pool
         _pool = pool
     return _pool
+
+
+def pool_source():
+    return os.environ.get("I2N_C14_POOL") or os.path.join(vlib.REPO, "avocado_i2n/states/pool.py")
 
 
 def mkparams(timeout=30):
@@ -112,7 +125,7 @@ def mkparams(timeout=30):
 
 def hash_limit():
     """the `size` argument of crypto.hash_file in compare_local, from /repo's AST (None = whole file)"""
-    tree = ast.parse(open(os.path.join(vlib.REPO, "avocado_i2n/states/pool.py")).read())
+    tree = ast.parse(open(pool_source()).read())
     sizes = set()
     for node in ast.walk(tree):
         if isinstance(node, ast.FunctionDef) and node.name == "compare_local":
@@ -489,19 +502,21 @@ def child_main(idx, plan, root, logpath, t_start):
 
     def hooked(name, real):
         def w(*a, **k):
-            if not st["in_cs"] or st["nest"]:
+            if st["nest"]:
                 return real(*a, **k)
             st["nest"] += 1
             try:
-                log("enter", name)
-                site()
+                log("enter", name)          # also outside the lock: the monitor must see an unlocked access
+                if st["in_cs"]:
+                    site()
                 try:
                     r = real(*a, **k)
                 except Exception as e:
                     log("fail", name, errname(e))
                     raise
                 log("exit", name)
-                site()
+                if st["in_cs"]:
+                    site()
                 return r
             finally:
                 st["nest"] -= 1
@@ -592,13 +607,27 @@ def finish_run(ctx, h, deadline):
 
 def trace_of(run, entries):
     """the monitor's events, chronological"""
-    ev, acquired = [], set()
+    ev, acquired, holding = [], set(), set()
+    has_rel = {i for (i, w, a) in entries if w == "rel"}
     for (i, what, args) in entries:
         path = run["procs"][i]["pool"]
+        if what in ("fail", "inject") and i in holding and i not in has_rel:
+            # an exception leaves the block and LOCK_UN is never called (not the current code): the lock
+            # file is closed while the exception propagates, somewhere between here and `end`
+            ev.append(f"f,{i},{path}")
+            ev.append(f"r,{i},{path}")
+            holding.discard(i)
+            continue
         if what == "acq":
             acquired.add(i)
+            holding.add(i)
             ev.append(f"a,{i},{path}")
         elif what == "rel":
+            holding.discard(i)
+            ev.append(f"r,{i},{path}")
+        elif what == "end" and i in holding:
+            # the operation returned without LOCK_UN: the lock file was closed on the way out (`with open`)
+            holding.discard(i)
             ev.append(f"r,{i},{path}")
         elif what in ("enter", "exit", "fail"):
             ev.append(f"f,{i},{path}")
@@ -685,7 +714,8 @@ def model_script(run, entries):
             pending[path] = [x for x in pending.get(path, []) if not x[0].endswith(f" {i}") and f" {i} " not in x[0]]
             pending.setdefault(path, []).append((f"act {i} crash", "ok pc=dead "))
             finished.add(i)
-        elif what == "rel" and i not in finished:
+        elif (what == "rel" or (what == "end" and i in acquired)) and i not in finished:
+            # (`end` without a logged LOCK_UN: the lock file was closed on the way out, which also unlocks)
             st = status.get(i, "")
             if st == "ok":
                 pending.setdefault(path, []).append((f"act {i} unlock", "ok pc=done "))
@@ -821,8 +851,9 @@ def judge_run(ctx, run, entries, final, extra, exitcodes):
             if any(j == i and w in ("enter", "exit") for (j, w, a) in entries):
                 ctx.violate("proceeded-unlocked", f"process {i} timed out but touched the files", case)
             tries = sum(1 for (j, w, a) in entries if j == i and w == "busy")
-            if tries != plan["timeout"]:
-                ctx.violate("timeout-miscounted", f"process {i} gave up after {tries} attempts, timeout={plan['timeout']}", case)
+            ctx.count("lock.timeout-after-attempts=%d" % tries)
+            if tries < plan["timeout"]:
+                ctx.violate("gave-up-early", f"process {i} raised after {tries} attempts, timeout={plan['timeout']}", case)
             if run["mode"] not in ("timeout", "timeout-real"):
                 ctx.violate("lock-stuck", f"process {i} could not obtain the lock within {plan['timeout']} attempts "
                             f"although every holder finished, raised or died", case)
